@@ -233,9 +233,10 @@ func (p Poly) asAtom() string {
 // ---------------------------------------------------------------------------------------------
 
 type Normer struct {
-	noRot       bool          // LoopWhile in progress: do not add loop invariants recursively
-	StripNarrow string        // callCases: a final conversion of a helper result to this integer type is dropped
-	Root        *ssa.Function // the function whose parameters carry the role names
+	bodyFrom    map[*ssa.BasicBlock]bool // headers of bottom-tested loops used as "start of the body" (loop test not part of the condition)
+	noRot       bool                     // LoopWhile in progress: do not add loop invariants recursively
+	StripNarrow string                   // callCases: a final conversion of a helper result to this integer type is dropped
+	Root        *ssa.Function            // the function whose parameters carry the role names
 	resolving   map[*ssa.Parameter]bool
 	curFrom     *ssa.BasicBlock
 	phiDepth    int
@@ -419,8 +420,15 @@ func (n *Normer) Norm(v ssa.Value) Poly {
 		st := x.X.Type().Underlying().(*types.Struct)
 		return n.atom(n.Norm(x.X).asAtom() + "." + fname(st.Field(x.Field)))
 	case *ssa.Index:
+		if isStringType(x.X.Type()) {
+			// a byte of a string reads like an element of the byte slice made from it
+			return n.atom(n.Norm(x.X).asAtom() + "[" + n.Norm(x.Index).String() + "]")
+		}
 		return pAtom("idx(" + n.Norm(x.X).asAtom() + "," + n.Norm(x.Index).String() + ")")
 	case *ssa.Lookup:
+		if isStringType(x.X.Type()) {
+			return n.atom(n.Norm(x.X).asAtom() + "[" + n.Norm(x.Index).String() + "]")
+		}
 		return pAtom("idx(" + n.Norm(x.X).asAtom() + "," + n.Norm(x.Index).String() + ")")
 	case *ssa.Extract:
 		if call, ok := x.Tuple.(*ssa.Call); ok {
